@@ -117,11 +117,18 @@ def run_history(hist, paths, model_cache, r, workdir):
                 got = ('text', o.value) if o.ok else ('exc', o.exc_name)
             else:
                 fp = os.path.join(workdir, 'out.py')
-                if os.path.exists(fp):
+                # the target path is, in turn: absent, holding an earlier (shorter or longer) translation, holding longer foreign
+                # text - what was there before must not survive in the written file
+                mode = step % 3
+                if mode == 0 and os.path.exists(fp):
                     os.remove(fp)
+                elif mode == 2:
+                    with open(fp, 'w', encoding='utf-8') as f:
+                        f.write('# stale tail\n' * 20000)
+                r.count('write_target_state:' + ['absent', 'previous', 'longer-foreign'][mode])
                 o = pipeline.guarded(lambda: p.write_translation(fp), 'translate')
                 if o.ok:
-                    with open(fp, encoding='utf-8') as f:
+                    with open(fp, encoding='utf-8', newline='') as f:
                         got = ('text', f.read())
                     o2 = pipeline.guarded(p.get_translation, 'translate')
                     r.count('file_vs_text_checks')
